@@ -177,6 +177,11 @@ bool simulated(const char *p) {
   if (p[0] != '/') return true;
   return std::strncmp(p, "/sim/", 5) == 0;
 }
+// A path component longer than NAME_MAX (255) cannot be created or looked up, as on the host's file systems.
+bool nameTooLong(const std::string &k) {
+  size_t start = 0;
+  for (;;) { size_t e = k.find('/', start); size_t len = (e == std::string::npos ? k.size() : e) - start; if (len > 255) return true; if (e == std::string::npos) return false; start = e + 1; }
+}
 int newMemfd() {
   int fd = memfd_create("simfile", MFD_CLOEXEC);
   if (fd < 0) { perror("memfd_create"); abort(); }
@@ -297,6 +302,7 @@ static FILE *simOpen(const char *path, const char *mode) {
     }
   }
   counters.opens++;
+  if (nameTooLong(k)) { counters.openFail++; g_log.evs("open_enametoolong", k.substr(0, 24), (uint64_t)k.size()); errno = ENAMETOOLONG; return nullptr; }
   auto f = faults().find(k);
   if (f != faults().end() && (!f->second.writesOnly || wr || plus)) {
     counters.openInjectedFail++;
@@ -337,11 +343,90 @@ static FILE *simOpen(const char *path, const char *mode) {
   }
   return fp;
 }
+int simRename(const char *from, const char *to) {
+  HarnessScope hs;
+  std::string a = norm(from), b = norm(to);
+  if (nameTooLong(a) || nameTooLong(b)) { g_log.evs("rename_enametoolong", a.substr(0, 24), (uint64_t)b.size()); errno = ENAMETOOLONG; return -1; }
+  auto it = files().find(a);
+  if (it == files().end()) { g_log.evs("rename_enoent", a); errno = ENOENT; return -1; }
+  auto f = faults().find(b);
+  if (f != faults().end()) { g_log.evs("rename_injected_fail", b, (uint64_t)f->second.err); errno = f->second.err; return -1; }
+  if (pipes().count(b)) { g_log.evs("rename_over_pipe", b); pipes().erase(b); }
+  if (a == b) return 0;
+  Ent e = it->second;
+  files().erase(it);
+  auto old = files().find(b);
+  if (old != files().end()) { close(old->second.fd); files().erase(old); }
+  files()[b] = e;
+  g_log.evs("rename", a + " -> " + b);
+  return 0;
+}
+int simUnlink(const char *path) {
+  HarnessScope hs;
+  std::string k = norm(path);
+  auto it = files().find(k);
+  if (it == files().end()) { g_log.evs("unlink_enoent", k); errno = nameTooLong(k) ? ENAMETOOLONG : ENOENT; return -1; }
+  close(it->second.fd); files().erase(it);
+  g_log.evs("unlink", k);
+  return 0;
+}
+// stat of a simulated path: a regular file of its current size, a FIFO, or ENOENT.
+int simStat(const char *path, struct stat *st) {
+  HarnessScope hs;
+  std::string k = norm(path);
+  if (nameTooLong(k)) { errno = ENAMETOOLONG; return -1; }
+  if (pipes().count(k)) { std::memset(st, 0, sizeof *st); st->st_mode = S_IFIFO | 0644; st->st_nlink = 1; g_log.evs("stat_fifo", k); return 0; }
+  auto it = files().find(k);
+  if (it == files().end()) { g_log.evs("stat_enoent", k); errno = ENOENT; return -1; }
+  struct stat real;
+  if (fstat(it->second.fd, &real) != 0) abort();
+  std::memset(st, 0, sizeof *st);
+  st->st_mode = S_IFREG | 0644; st->st_nlink = 1; st->st_size = real.st_size; st->st_blksize = 4096; st->st_blocks = (real.st_size + 511) / 512;
+  g_log.evs("stat", k, (uint64_t)real.st_size);
+  return 0;
+}
 } // namespace fs
 
 } // namespace sim
 
 extern "C" {
+static_assert(sizeof(struct stat) == sizeof(struct stat64), "stat layouts");
+#define SIM_STAT_WRAPPER(NAME, ST) \
+  int NAME(const char *path, struct ST *st) { \
+    if (sim::fs::simulated(path) && sim::g_stdStreams) return sim::fs::simStat(path, (struct stat *)st); \
+    typedef int (*fn_t)(const char *, struct ST *); \
+    static fn_t real = (fn_t)dlsym(RTLD_NEXT, #NAME); \
+    return real(path, st); \
+  }
+SIM_STAT_WRAPPER(stat, stat)
+SIM_STAT_WRAPPER(lstat, stat)
+SIM_STAT_WRAPPER(stat64, stat64)
+SIM_STAT_WRAPPER(lstat64, stat64)
+int access(const char *path, int mode) {
+  if (sim::fs::simulated(path) && sim::g_stdStreams) { struct stat st; return sim::fs::simStat(path, &st); }
+  typedef int (*fn_t)(const char *, int);
+  static fn_t real = (fn_t)dlsym(RTLD_NEXT, "access");
+  return real(path, mode);
+}
+int rename(const char *from, const char *to) {
+  if (sim::fs::simulated(from) && sim::fs::simulated(to)) return sim::fs::simRename(from, to);
+  typedef int (*rename_fn)(const char *, const char *);
+  static rename_fn real = (rename_fn)dlsym(RTLD_NEXT, "rename");
+  return real(from, to);
+}
+int unlink(const char *path) {
+  if (sim::fs::simulated(path)) return sim::fs::simUnlink(path);
+  typedef int (*unlink_fn)(const char *);
+  static unlink_fn real = (unlink_fn)dlsym(RTLD_NEXT, "unlink");
+  return real(path);
+}
+int remove(const char *path) {
+  if (sim::fs::simulated(path)) return sim::fs::simUnlink(path);
+  typedef int (*remove_fn)(const char *);
+  static remove_fn real = (remove_fn)dlsym(RTLD_NEXT, "remove");
+  return real(path);
+}
+
 typedef FILE *(*fopen_fn)(const char *, const char *);
 FILE *fopen64(const char *path, const char *mode) {
   if (sim::fs::simulated(path)) return sim::fs::simOpen(path, mode);
